@@ -118,6 +118,8 @@ class SeriesSym(P.PolySym):
                 if d.val() == 0 and d.c[0].is_number and d.c[0] != 0:
                     d0 = d.c[0]
                     return bool({"<": d0 < 0, "<=": d0 <= 0, ">": d0 > 0, ">=": d0 >= 0}[n0["op"]])
+                if set(d.c) <= {0}:
+                    return S.TOP        # a free parameter (interpolation factor ...) against a constant: an argument check, left to the caller
                 raise S.Unsupported("comparison of jets not decided at the identity: %s" % sexp(n0)[:80])
             return self.arith(n0["op"], a, b)
         return P.PolySym.ev(self, n, env)
@@ -510,3 +512,79 @@ def check(rep, prop, what, variants=None, order_exp=5, order_jac=4):
         if len([x for x in rep.samples if isinstance(x, dict) and x.get("rule") == "R-SERIES"]) < 6:
             rep.sample({"rule": "R-SERIES", "variant": v, "cells_compared": n})
     return total
+
+
+def slerp_semantic(v, order=3):
+    """Semantic form of C15's SLERP clause, independent of how the routine is spelled: with A = exp(e x), B = A exp(e y)
+    (every near-identity pair) and a symbolic parameter tau, the matrix of interpolate_slerp(A, B, tau) equals
+    T(A) * sum_k (tau e hat(y))^k / k!  through `order`, cell by cell.  Returns (ok, detail, cells)."""
+    tcls, gcls, dof, rep_n = TAN[v]
+    F = FX.get(v)
+    TT = RT.extract(F, v)
+    own_t, own_g = tcls + "<double>", gcls + "<double>"
+    f = next((g for g in F.functions if g["kind"] == "inst" and g["short"] == "interpolate_slerp" and g.get("targs")
+              and str(g["targs"][0]).replace(" ", "") == own_g.replace(" ", "") and g["targs"][1] == "double"), None)
+    if f is None:
+        raise C.AnalysisBroken("anchor vanished: interpolate_slerp<%s>" % own_g)
+    old = S.POLY, S.JET, J.ORDER
+    S.POLY, S.JET, J.ORDER = "expr", J, order + 6
+    try:
+        sym = SeriesSym(F)
+        sym.switches = set()
+        xs = [sp.Symbol("x%d" % i) for i in range(dof)]
+        ys = [sp.Symbol("y%d" % i) for i in range(dof)]
+        tau = sp.Symbol("tau")
+
+        def tangent(cells):
+            m = S.Mat(dof, 1)
+            m.cells = list(cells)
+            return S.Obj(S.View(m, 0, 0, dof, 1), own_t)
+
+        def call(g, this, args, what):
+            try:
+                return sym.call_function(g, this, args)
+            except (S.Unsupported, S.Raised) as ex:
+                raise C.AnalysisBroken("R-SERIES.slerp cannot interpret %s of %s: %s" % (what, own_g, ex))
+        f_exp = find(F, tcls + "Base", "exp", own_t)
+        f_cmp = find(F, gcls + "Base", "compose", own_g, lambda g: str((g.get("targs") or [""])[0]).replace(" ", "") == own_g.replace(" ", ""))
+        f_T = find(F, gcls + "Base", "transform", own_g)
+        if not all((f_exp, f_cmp, f_T)):
+            raise C.AnalysisBroken("anchor vanished: exp / compose / transform of %s" % v)
+        A_ = call(f_exp, tangent(J.JetNum({1: x}) for x in xs), [None], "exp")
+        B_ = call(f_cmp, A_, [call(f_exp, tangent(J.JetNum({1: y}) for y in ys), [None], "exp"), None, None], "compose")
+        M = call(f, None, [A_, B_, J.JetNum({0: tau})], "interpolate_slerp")
+        got = mat_jets(S.as_mat(call(f_T, M, [], "transform")))
+        if got is None:
+            raise C.AnalysisBroken("R-SERIES.slerp: transform(interpolate_slerp) of %s has a non-symbolic cell" % v)
+        n = len(got)
+        def hat_of(cs_):
+            H = sp.Matrix([[S.to_sym(TT.H.get(r, c)) for c in range(TT.H.C)] for r in range(TT.H.R)])
+            H = H.subs({sp.Symbol("c%d" % i): cs_[i] for i in range(dof)}, simultaneous=True)
+            Hp = sp.zeros(n, n)
+            for r in range(H.shape[0]):
+                for c in range(H.shape[1]):
+                    Hp[r, c] = H[r, c]
+            return Hp
+        def expm(Hm, scale):
+            out, term = sp.eye(n), sp.eye(n)
+            for kk in range(1, order + 1):
+                term = (term * Hm * scale / kk).applyfunc(sp.expand)
+                out = out + term
+            return out
+        E_ = sp.Symbol("E_")
+        want = (expm(hat_of(xs), E_) * expm(hat_of(ys), E_ * tau)).applyfunc(sp.expand)
+        cells = 0
+        for r in range(n):
+            for c in range(n):
+                cells += 1
+                g = J.truncate(got[r][c], order)
+                wp = sp.Poly(want[r, c], E_)
+                for kk in range(order + 1):
+                    d = J.simp(g.get(kk, sp.Integer(0)) - wp.coeff_monomial(E_ ** kk))
+                    if d != 0:
+                        d = sp.simplify(d.subs({rr: sp.sqrt(rad) for rad, rr in J._roots.items()}))
+                    if d != 0:
+                        return False, "cell (%d,%d), order %d: T(slerp) has %s, T(A) expm(tau hat(log(A^-1 B))) has %s" % (r, c, kk, str(g.get(kk, 0))[:80], str(wp.coeff_monomial(E_ ** kk))[:80]), cells
+        return True, "", cells
+    finally:
+        S.POLY, S.JET, J.ORDER = old
